@@ -230,6 +230,37 @@ let c15_paged_tokens (sch : sdef list) (st : state) (buf : Buffer.t) : unit =
         end
     end) sch
 
+(* ---- C15: every lookup variant of the store API (tokens LK / RE, harness store_c15w6.go c15LookupReads - keep them in
+   step).  The answers are the transcribed variants of Store/Lookups.v; probe ids = the generator's id universe a..f and
+   every id the root store holds, each once, in byte order. *)
+let c15_probe_universe = List.map name_of_string ["a"; "b"; "c"; "d"; "e"; "f"]
+
+let c15_lookup_tokens (sch : sdef list) (st : state) (buf : Buffer.t) : unit =
+  List.iter (fun d ->
+    if c15_in_family sch d then begin
+    let nm = string_of_name d.sd_name in
+    let rootn = (match d.sd_parent with Some p -> p | None -> d.sd_name) in
+    let probes = List.map name_of_string
+      (List.sort_uniq compare (List.map string_of_name (c15_probe_universe @ ids_of st rootn))) in
+    let hexl l = String.concat "." (List.sort compare (List.map hex_of_bytes l)) in
+    (match find_store sch rootn with
+     | None -> ()
+     | Some rd ->
+       List.iter (fun i ->
+         List.iter (fun sf ->
+           let l = lk_related sch st d.sd_name i sf in
+           (* IsEntityRelated, asked for every member and for a value that is none *)
+           let r = List.filter (fun x -> lk_is_related sch st d.sd_name i sf x) (name_of_string "zz" :: l) in
+           if l <> [] || r <> [] then
+             Buffer.add_string buf (Printf.sprintf " RE:%s:%s:%s:%s:%s:%s" nm (hex_of_bytes i) (string_of_name sf) (hexl l) (hexl l) (hexl r)))
+           rd.sd_sets) probes);
+    List.iter (fun (tag, lk) ->
+      Buffer.add_string buf (Printf.sprintf " LK:%s:%s:%s" nm tag
+        (String.concat "," (List.map hex_of_bytes (List.filter (fun i -> lk sch st d.sd_name i) probes)))))
+      [("fb", lk_find_by_id); ("lb", lk_load_by_id); ("le", lk_load_entity); ("ep", lk_is_entity_present);
+       ("eb", lk_bucket); ("vi", lk_valid_id)]
+    end) sch
+
 let () =
   let fuel = nat_of_int 64 in
   iter_lines (fun line ->
@@ -281,6 +312,7 @@ let () =
             Buffer.add_string buf (Printf.sprintf " LF:%s:%s:isSystem:%s" nm (hex_of_bytes i) sysv))
             (find_ids sch !st d.sd_name)) sch;
         c15_paged_tokens sch !st buf;
+        c15_lookup_tokens sch !st buf;
         Buffer.add_string buf " ST";
         List.iter (fun f -> Buffer.add_char buf ' '; Buffer.add_string buf f) (facts sch !st);
         Buffer.add_string buf " | "
